@@ -127,21 +127,24 @@ func main() {
 }
 
 type rewriter struct {
-	fset     *token.FileSet
-	info     *types.Info
-	feat     *features
-	pkgDir   string
-	sites    int
-	needCS   bool // file needs the csched import
-	needVmap bool
-	recv2    map[*ast.UnaryExpr]bool
-	makeChan map[*ast.CallExpr]ast.Expr
-	closeCh  map[*ast.CallExpr]bool
-	rangeK   map[*ast.RangeStmt]string // "chan" | "map"
-	readdir  map[*ast.CallExpr]bool
-	lenCap   map[*ast.CallExpr]string
-	errs     []string
-	uniq     int
+	fset      *token.FileSet
+	info      *types.Info
+	feat      *features
+	pkgDir    string
+	sites     int
+	needCS    bool // file needs the csched import
+	needVmap  bool
+	recv2     map[*ast.UnaryExpr]bool
+	makeChan  map[*ast.CallExpr]ast.Expr
+	closeCh   map[*ast.CallExpr]bool
+	rangeK    map[*ast.RangeStmt]string // "chan" | "map"
+	readdir   map[*ast.CallExpr]bool
+	lenCap    map[*ast.CallExpr]string
+	inSelect  map[ast.Node]bool // communication nodes of select clauses, rewritten together with their select
+	needVtime bool
+	timeName  string // local name of the "time" import of the file, "" if none
+	errs      []string
+	uniq      int
 }
 
 func (r *rewriter) errorf(n ast.Node, format string, a ...interface{}) {
@@ -187,7 +190,7 @@ func rewritePackage(dir string, feat *features, overlay map[string]string) (int,
 	for i, f := range files {
 		r := &rewriter{fset: fset, info: info, feat: feat, pkgDir: dir,
 			recv2: map[*ast.UnaryExpr]bool{}, makeChan: map[*ast.CallExpr]ast.Expr{}, closeCh: map[*ast.CallExpr]bool{},
-			rangeK: map[*ast.RangeStmt]string{}, readdir: map[*ast.CallExpr]bool{}, lenCap: map[*ast.CallExpr]string{}}
+			rangeK: map[*ast.RangeStmt]string{}, readdir: map[*ast.CallExpr]bool{}, lenCap: map[*ast.CallExpr]string{}, inSelect: map[ast.Node]bool{}}
 		changed := r.rewriteFile(f)
 		if len(r.errs) > 0 {
 			return 0, fmt.Errorf("unsupported constructs:\n  %s", strings.Join(r.errs, "\n  "))
@@ -225,6 +228,82 @@ func min(a, b int) int {
 		return a
 	}
 	return b
+}
+
+// rewriteSelect turns a select statement into a switch over csched.Select.
+func (r *rewriter) rewriteSelect(c *astutil.Cursor, n *ast.SelectStmt) {
+	r.uniq++
+	r.needCS = true
+	r.sites++
+	zi := ast.NewIdent(fmt.Sprintf("zvI%d", r.uniq))
+	zv := ast.NewIdent(fmt.Sprintf("zvV%d", r.uniq))
+	zo := ast.NewIdent(fmt.Sprintf("zvOk%d", r.uniq))
+	hasDefault := "false"
+	var args []ast.Expr
+	var clauses []ast.Stmt
+	use := &ast.AssignStmt{Lhs: []ast.Expr{ast.NewIdent("_"), ast.NewIdent("_")}, Tok: token.ASSIGN, Rhs: []ast.Expr{zv, zo}}
+	simple := func(e ast.Expr) bool {
+		for {
+			switch x := e.(type) {
+			case *ast.Ident:
+				return true
+			case *ast.SelectorExpr:
+				e = x.X
+			case *ast.ParenExpr:
+				e = x.X
+			case *ast.IndexExpr:
+				if _, ok := x.Index.(*ast.BasicLit); !ok {
+					if _, ok := x.Index.(*ast.Ident); !ok {
+						return false
+					}
+				}
+				e = x.X
+			default:
+				return false
+			}
+		}
+	}
+	for _, st := range n.Body.List {
+		cc := st.(*ast.CommClause)
+		if cc.Comm == nil {
+			hasDefault = "true"
+			clauses = append(clauses, &ast.CaseClause{Body: append([]ast.Stmt{use}, cc.Body...)})
+			continue
+		}
+		idx := &ast.BasicLit{Kind: token.INT, Value: strconv.Itoa(len(args))}
+		var pre []ast.Stmt
+		switch comm := cc.Comm.(type) {
+		case *ast.SendStmt:
+			args = append(args, &ast.CallExpr{Fun: &ast.SelectorExpr{X: comm.Chan, Sel: ast.NewIdent("SendCase")}, Args: []ast.Expr{comm.Value}})
+		case *ast.ExprStmt:
+			u := ast.Unparen(comm.X).(*ast.UnaryExpr)
+			args = append(args, &ast.CallExpr{Fun: &ast.SelectorExpr{X: u.X, Sel: ast.NewIdent("RecvCase")}})
+		case *ast.AssignStmt:
+			u := ast.Unparen(comm.Rhs[0]).(*ast.UnaryExpr)
+			if !simple(u.X) {
+				r.errorf(n, "select receive clause with an assignment from a non-trivial channel expression")
+			}
+			args = append(args, &ast.CallExpr{Fun: &ast.SelectorExpr{X: u.X, Sel: ast.NewIdent("RecvCase")}})
+			rhs := []ast.Expr{&ast.CallExpr{Fun: sel("csched", "As"), Args: []ast.Expr{u.X, zv}}}
+			if len(comm.Lhs) == 2 {
+				rhs = append(rhs, zo)
+			}
+			pre = append(pre, &ast.AssignStmt{Lhs: comm.Lhs, Tok: comm.Tok, Rhs: rhs})
+		}
+		body := append([]ast.Stmt{use}, pre...)
+		clauses = append(clauses, &ast.CaseClause{List: []ast.Expr{idx}, Body: append(body, cc.Body...)})
+	}
+	if hasDefault == "false" && len(clauses) > 0 {
+		// Select returns one of the clause indexes: the last clause becomes the switch's default, which keeps
+		// a select that ends a function a terminating statement
+		clauses[len(clauses)-1].(*ast.CaseClause).List = nil
+	}
+	call := &ast.CallExpr{Fun: sel("csched", "Select"), Args: append([]ast.Expr{ast.NewIdent(hasDefault)}, args...)}
+	c.Replace(&ast.SwitchStmt{
+		Init: &ast.AssignStmt{Lhs: []ast.Expr{zi, zv, zo}, Tok: token.DEFINE, Rhs: []ast.Expr{call}},
+		Tag:  zi,
+		Body: &ast.BlockStmt{List: clauses},
+	})
 }
 
 func sel(pkg, name string) ast.Expr {
@@ -267,8 +346,15 @@ var importMap = map[string][2]string{
 func (r *rewriter) rewriteFile(f *ast.File) bool {
 	changed := false
 	// imports
+	r.timeName = ""
 	for _, is := range f.Imports {
 		p, _ := strconv.Unquote(is.Path.Value)
+		if p == "time" {
+			r.timeName = "time"
+			if is.Name != nil {
+				r.timeName = is.Name.Name
+			}
+		}
 		m, ok := importMap[p]
 		if !ok {
 			continue
@@ -292,7 +378,33 @@ func (r *rewriter) rewriteFile(f *ast.File) bool {
 		switch n := c.Node().(type) {
 		case *ast.SelectStmt:
 			if r.feat.sched {
-				r.errorf(n, "select statement")
+				for _, st := range n.Body.List {
+					cc := st.(*ast.CommClause)
+					switch comm := cc.Comm.(type) {
+					case nil:
+					case *ast.SendStmt:
+						r.inSelect[comm] = true
+					case *ast.ExprStmt:
+						r.inSelect[ast.Unparen(comm.X)] = true
+					case *ast.AssignStmt:
+						r.inSelect[ast.Unparen(comm.Rhs[0])] = true
+					}
+				}
+			}
+		case *ast.SelectorExpr:
+			if r.feat.sched && r.timeName != "" {
+				if id, ok := n.X.(*ast.Ident); ok {
+					if pn, ok := r.info.Uses[id].(*types.PkgName); ok && pn.Imported().Path() == "time" {
+						switch n.Sel.Name {
+						case "After", "Sleep", "NewTimer", "AfterFunc", "Timer":
+							n.X = ast.NewIdent("vtime")
+							r.needVtime = true
+							r.sites++
+						case "Tick", "NewTicker", "Ticker":
+							r.errorf(n, "time.%s (tickers are not modelled)", n.Sel.Name)
+						}
+					}
+				}
 			}
 		case *ast.AssignStmt:
 			if r.feat.sched && len(n.Lhs) == 2 && len(n.Rhs) == 1 {
@@ -357,8 +469,12 @@ func (r *rewriter) rewriteFile(f *ast.File) bool {
 					Body: &ast.BlockStmt{List: []ast.Stmt{&ast.ExprStmt{X: n.Call}}},
 				}},
 			}})
+		case *ast.SelectStmt:
+			if r.feat.sched {
+				r.rewriteSelect(c, n)
+			}
 		case *ast.SendStmt:
-			if !r.feat.sched {
+			if !r.feat.sched || r.inSelect[n] {
 				break
 			}
 			r.sites++
@@ -367,7 +483,7 @@ func (r *rewriter) rewriteFile(f *ast.File) bool {
 				Args: []ast.Expr{n.Value},
 			}})
 		case *ast.UnaryExpr:
-			if !r.feat.sched || n.Op != token.ARROW {
+			if !r.feat.sched || n.Op != token.ARROW || r.inSelect[n] {
 				break
 			}
 			name := "Recv"
@@ -484,6 +600,13 @@ func (r *rewriter) rewriteFile(f *ast.File) bool {
 	}
 	if r.needVmap {
 		astutil.AddNamedImport(r.fset, f, "vmap", modPath+"/zverif/vmap")
+	}
+	if r.needVtime {
+		astutil.AddNamedImport(r.fset, f, "vtime", modPath+"/zverif/vtime")
+		// keep the time import used
+		f.Decls = append(f.Decls, &ast.GenDecl{Tok: token.VAR, Specs: []ast.Spec{&ast.ValueSpec{
+			Names: []*ast.Ident{ast.NewIdent("_")}, Type: sel(r.timeName, "Duration")}}})
+		r.needVtime = false
 	}
 	return changed
 }
